@@ -767,10 +767,10 @@ def c09(ctx):
     res = ctx.res
     from fractions import Fraction
     for _ in range(ctx.n(5000)):
-        i = num_for(ctx)
-        d = num_for(ctx)
+        i = gen.finite(num_for(ctx))
+        d = gen.finite(num_for(ctx))
         if ctx.r.random() < 0.3:
-            d = tweak_num(ctx, i)
+            d = gen.finite(tweak_num(ctx, i))
         case = {"i": i, "d": d}
         m = ctx.drv.run("NUM", case, oracle_mod.Oracle())
         res.compared += 1
